@@ -13,17 +13,21 @@
 ##############################################################################
 
 from collections import deque
+import re
 import sys
 import threading
 import time
 
 from .buffers import ReadOnlyFileBasedBuffer
+from .rfc7230 import TOKEN
 from .utilities import build_http_date, logger, queue_logger
 
 rename_headers = {  # or keep them without the HTTP_ prefix added
     "CONTENT_LENGTH": "CONTENT_LENGTH",
     "CONTENT_TYPE": "CONTENT_TYPE",
 }
+
+header_name_re = re.compile(TOKEN)
 
 hop_by_hop = frozenset(
     (
@@ -441,6 +445,13 @@ class WSGITask(Task):
                 if "\n" in k or "\r" in k:
                     raise ValueError(
                         "carriage return/line feed character present in header name"
+                    )
+                if not header_name_re.fullmatch(k):
+                    # PEP 3333: a valid HTTP field-name, without a trailing
+                    # colon or other punctuation ("Keep-Alive:" would reach the
+                    # client as the hop-by-hop field it is refused as)
+                    raise AssertionError(
+                        f"Header name {k!r} is not a valid field-name in {(k, v)!r}"
                     )
 
                 kl = k.lower()
